@@ -460,7 +460,7 @@ func Walk(e *core.Env, img []byte, mode pdf.ReaderErrorHandling, password string
 		rest := ticks - filterTicks
 		bound := int64(24<<20)*int64(1+st.fonts+st.pages) + 4096*(int64(len(img))+st.drained)
 		e.Probe("walk time bound evaluated")
-		e.ProbeN("simulated time of the walks (thousands of work ticks)", int(ticks/1000))
+		e.ProbeN("measured: simulated time of the walks (thousands of work ticks)", int(ticks/1000))
 		switch {
 		case rest > bound/2:
 			e.Probe("walk time above 50% of the bound")
